@@ -53,8 +53,9 @@ prop("C02",
      COMMON_ASSUMPTIONS)
 
 prop("C13",
-     ["OW3"],
-     "Purity: alias/in-place analysis of every scale method and the helpers it hands data to (astype(copy=False), views, out=, "
+     ["OW3", "SD1", "NS1", "ST1", "AO1"],
+     "Dispatch/arity and operand order of the scale-graph evaluator, number-of-scales inference shape, status test placement, "
+     "channel->group->file lookup order with each scope read from the complete property map. Purity: alias/in-place analysis of every scale method and the helpers it hands data to (astype(copy=False), views, out=, "
      "augmented assignment, mutating methods, interprocedural summaries).",
      ["numerical equality of each formula with its defining formula", "graph evaluation on concrete properties"],
      COMMON_ASSUMPTIONS)
@@ -78,6 +79,57 @@ prop("C08",
      "offsets), index twin (is_index_file influences only the tag and the raw-data guard; same objects/version; own stream), parents-first "
      "ordering and written-state updated only after the writes, ToC flags.",
      ["objects that do not follow the TdmsObject protocol (path, properties, data)"],
+     COMMON_ASSUMPTIONS)
+
+prop("C01",
+     ["TD1", "BL1", "BL2", "BL3", "PR1", "GR1", "UD1"],
+     "Type x layout dispatch exhaustiveness over the 17 admitted channel types and every decoder branch; every fixed-size record "
+     "unpacked with a format of exactly the size read; type-table consistency; byte-order threading; insertion-ordered containers "
+     "filled in file order with last-value-wins properties and once-per-segment updates; groups never replaced during the object "
+     "walk; strings cut at byte offsets before decoding.",
+     ["bit-exact values", "chunk-count arithmetic (_calculate_chunks)", "concatenation order across chunks"],
+     COMMON_ASSUMPTIONS)
+
+prop("C03",
+     ["MP1", "MP3", "TS1", "OFS1", "LN1", "BL3", "BL4"],
+     "One timestamp-representation switch on every reader->user path; scaling applied exactly once by scaled accessors and never by raw "
+     "ones, sibling three-way decisions agree; a channel without data type never reaches the reader in eager mode; chunk offsets are "
+     "snapshots of the running count; one funnel for value counts; byte order and timestamp layout threaded on every decoder path.",
+     ["equality of values across access paths for arbitrary files", "memmap equivalence", "integer/slice accesses of zero-length channels"],
+     COMMON_ASSUMPTIONS)
+
+prop("C04",
+     ["CS1", "ES1", "CS2", "NT1", "BD1", "CE1"],
+     "Shape conditions of the window arithmetic only: positional loop counters advanced on every path (continue included), segment numbering "
+     "starts at the window's first segment with first/last-segment adjustments present, data and scaler arrays sliced alike, optional "
+     "arguments tested with `is None`, chunk offset/count passed to the segment reader depend on the window start/end with truncated-final-chunk "
+     "awareness, offset arrays shared only after an element-complete comparison.",
+     ["that _read_slice equals NumPy slicing", "searchsorted side choices", "the skip/trim arithmetic itself"],
+     COMMON_ASSUMPTIONS)
+
+prop("C09",
+     ["MP2", "TM1", "CO1", "DF1", "MP4", "NC1"],
+     "Tag check dominating every segment data read; ToC mask parsed little-endian; coordinate-space analysis of the seeks while parsing the "
+     "index stream and reaching the next lead-in on every iteration; index/data mode passed explicitly and selecting the tag; index-only "
+     "detection evaluated over the constructor's four input scenarios and guarding every data path; None-check contradiction on the data "
+     "file size.",
+     ["equality of the two parses for arbitrary files", "correctness of the clamp for incomplete last segments"],
+     COMMON_ASSUMPTIONS)
+
+prop("C10",
+     ["KC1", "TD2", "TS1", "BL4", "BL5", "BL6"],
+     "Call-site constants and role pairing of defragment (raw timestamps, raw data, names/properties of the same object, unfiltered loop "
+     "nest with every group and channel written), writer dispatch totality for every type the writer can choose (Void excluded from size "
+     "arithmetic), no-type channels never reach the closed reader, raw timestamp layout, declared sizes equal written sizes, faithful index twin.",
+     ["bit-identity of values and properties for arbitrary files"],
+     COMMON_ASSUMPTIONS)
+
+prop("C19",
+     ["CG1", "GD1", "BD1", "CH1"],
+     "Code shape is seek-and-read-a-window, not read-everything-and-trim: whole-file/segment readers unreachable from per-channel entry points; "
+     "contiguous per-channel reader reads only under the path test and skips others arithmetically; segment slice, chunk offset and chunk "
+     "count depend on the request; cache hit test two-sided on the normalised index; constant 4-byte tag read per segment.",
+     ["the actual byte ranges", "minimality of the window"],
      COMMON_ASSUMPTIONS)
 
 # ---------------------------------------------------------------------------
@@ -105,7 +157,22 @@ LEVEL_TEXT["C14"] = ("Claim (structural): channel.dtype is computed symbolically
 LEVEL_TEXT["C08"] = ("Claim (structural): length fields vs the bytes that follow are pairs of expressions in one module; the checker resolves "
                      "both sides (type sizes from the type table, field lists per path) and compares them for every path, which an "
                      "example-based comparison of serialised segments cannot do for arbitrary inputs.")
+for _pid, _txt in {
+    "C01": "Partial claim (structural necessary conditions of faithful decoding): exhaustive type x layout dispatch, size/format agreement, table consistency, byte-order threading, container ordering discipline.",
+    "C03": "Partial claim: the places where access paths can diverge structurally (representation switch, scaling application, mode sentinel, offset snapshot, length funnel) are enumerated and decided; value equality is not.",
+    "C04": "Partial, narrow claim: window arithmetic is numeric; only its shape conditions are decided (see not_decided).",
+    "C09": "Partial claim: position translation, tag checks, mode flags and the index-only guard are decided structurally; equality of the two parses is not.",
+    "C10": "Partial claim: defragment composes reader and writer; decided are the call-site constants/roles and the dispatch totality both sides rest on.",
+    "C19": "Partial claim: byte counts are run-time; decided is that the code has the bounded-window shape (reachability, guarded reads, request-dependent bounds, cache test).",
+}.items():
+    LEVEL_TEXT[_pid] = _txt
 TECHNIQUE = {
+    "C01": "static analysis: dispatch exhaustiveness over the class hierarchy, size/format agreement, endianness dataflow, container discipline",
+    "C03": "static analysis: must-pass-through on CFGs, sibling comparison, abstract state reachability, escape analysis of the offset accumulator",
+    "C04": "static analysis: loop-carried counter path rule, dependence analysis of window bounds, None-vs-falsy lint on a frozen parameter table",
+    "C09": "static analysis: dominance of tag checks, coordinate-space typing of seek targets, scenario evaluation of constructor stores, None-contradiction rule",
+    "C10": "static analysis: call-site constant/role checks, CFG must-pass in the copy loops, writer dispatch totality",
+    "C19": "static analysis: call-graph unreachability, control dependence of reads, data dependence of window bounds",
     "C08": "static analysis: expression/size agreement per CFG path, influence set of is_index_file, dominance of state updates by the writes",
     "C14": "static analysis: abstract interpretation over a dtype lattice (NumPy as promotion oracle), table extraction and comparison, dataflow of dtype sources",
     "C02": "static analysis: alias/freshness dataflow, typestate abstract interpretation of the object list and has_data, control-dependence of raises",
